@@ -210,6 +210,9 @@ impl ObjSpec {
 
 #[derive(Clone, Debug)]
 pub struct CaSpec {
+    /// Serial numbers this CA's CRL revokes besides those of its own
+    /// faulty objects (e.g. certificates of an earlier version).
+    pub extra_revoked: Vec<u64>,
     pub name: String,
     /// Index of the CA key.
     pub key: usize,
@@ -251,6 +254,7 @@ impl CaSpec {
             cert_fault: None, point_fault: None,
             objs: Vec::new(), children: Vec::new(),
             cert_not_after: YEAR,
+            extra_revoked: Vec::new(),
             mft_number: 1, mft_this_update: -3600, mft_next_update: DAY,
             mft_ee_not_after: 7 * DAY, crl_next_update: DAY,
             skip_point: false,
@@ -320,6 +324,8 @@ pub struct Image {
     pub truth: Vec<TruthItem>,
     /// Everything needed to know about each CA for oracles.
     pub cas: Vec<CaInfo>,
+    /// serial number of the EE certificate of each object: "ca/object" -> serial
+    pub ee_serials: BTreeMap<String, u64>,
 }
 
 #[derive(Clone, Debug)]
@@ -389,6 +395,9 @@ impl<'a> Builder<'a> {
     }
 
     fn next_serial(&mut self) -> u64 { self.serial += 1; self.serial }
+
+    /// Moves the serial numbers of everything built from now on.
+    pub fn skip_serials(&mut self, n: u64) { self.serial += n; }
 
     pub fn build(mut self, spec: &TreeSpec) -> Image {
         for tal in &spec.tals {
@@ -517,6 +526,7 @@ impl<'a> Builder<'a> {
         let mut truths = Vec::new();
         for (oi, obj) in ca.objs.iter().enumerate() {
             let serial = self.next_serial();
+            self.image.ee_serials.insert(format!("{}/{}", ca.name, obj.name), serial);
             let file = obj.file_name();
             let obj_uri = format!("{repo}{file}");
             let (nb, na) = match obj.fault {
@@ -652,6 +662,7 @@ impl<'a> Builder<'a> {
         // --- CRL
         let mft_serial = self.next_serial();
         if ca.point_fault == Some(PointFault::MftEeRevoked) { revoked.push(mft_serial); }
+        revoked.extend(ca.extra_revoked.iter().copied());
         let crl_file = format!("{}.crl", ca.name);
         let crl_next = if ca.point_fault == Some(PointFault::CrlStale) { -3600 } else { ca.crl_next_update };
         let crl = TbsCertList::new(
